@@ -230,6 +230,7 @@ def _prove_eq(solver, prem, lhs, rhs, timeout_ms):
     solver.push()
     try:
         solver.set("timeout", timeout_ms)
+        solver.set("rlimit", 3000000)       # deterministic resource bound (timeouts are not always honoured)
         for p in prem:
             solver.add(p)
         conds = _conditions([lhs, rhs])
@@ -302,6 +303,7 @@ def _prove_eq(solver, prem, lhs, rhs, timeout_ms):
         return rec(0, {})
     finally:
         solver.pop()
+        solver.set("rlimit", 0)
 
 
 def p_rename(p, ren):
